@@ -139,10 +139,32 @@ func (k *KDC) Principal(name []string) *Principal {
 	return k.princs[strings.Join(name, "/")]
 }
 
+// krbErrorWire mirrors KRB-ERROR (RFC 4120 5.9.1) as a KDC sends it: the OPTIONAL ctime, cusec, crealm and cname are left
+// out (there is no client timestamp to echo).  Encoded here, not by the library's own KRBError type.
+type krbErrorWire struct {
+	PVNO      int                 `asn1:"explicit,tag:0"`
+	MsgType   int                 `asn1:"explicit,tag:1"`
+	STime     time.Time           `asn1:"generalized,explicit,tag:4"`
+	Susec     int                 `asn1:"explicit,tag:5"`
+	ErrorCode int32               `asn1:"explicit,tag:6"`
+	Realm     string              `asn1:"generalstring,explicit,tag:9"`
+	SName     types.PrincipalName `asn1:"explicit,tag:10"`
+	EText     string              `asn1:"generalstring,optional,explicit,tag:11"`
+	EData     []byte              `asn1:"optional,explicit,tag:12"`
+}
+
 func krbErr(realm string, sname types.PrincipalName, code int32, edata []byte) []byte {
+	if sname.NameString == nil {
+		sname.NameString = []string{}
+	}
+	b, err := asn1.Marshal(krbErrorWire{PVNO: 5, MsgType: 30, STime: time.Now().UTC().Truncate(time.Second), Susec: 7, ErrorCode: code, Realm: realm,
+		SName: sname, EText: "simulated KDC", EData: edata})
+	if err == nil {
+		return asn1tools.AddASNAppTag(b, 30)
+	}
 	e := messages.NewKRBError(sname, realm, code, "simulated KDC")
 	e.EData = edata
-	b, _ := e.Marshal()
+	b, _ = e.Marshal()
 	return b
 }
 
